@@ -78,7 +78,8 @@ def sym_probability_distribution(deformed):
     code = Obj(None, {'n': n, 'qubit_coordinates': coords}, 'code')
     selfo = Obj(cls, {'_direction': T([rx, ry, rz]), '_deformation_name': E.const('XZZX') if deformed else NONE,
                       '_deformation_kwargs': D({'deformation_axis': E.const('z')}) if deformed else D({})}, 'error_model')
-    intr = {'code.get_deformation': getdef, ('index', 'coords'): lambda x, st, b, i: ('coord', i),
+    intr = {'code.get_deformation': getdef, ('method', 'code', 'get_deformation'): lambda x, st, o, a, k: getdef(x, st, a, k),
+            ('index', 'coords'): lambda x, st, b, i: ('coord', i), ('len', 'coords'): lambda x, st, v: n,
             'loop:range': pointwise_range_loop}
     x = X(m, intr)
     st, ret = x.run(f.node and f, [code, p], {}, selfo)
